@@ -30,7 +30,7 @@ ASSUMPTIONS = [
     "labels used as file names are alphanumeric",
     "times whose t*rate is within 1e-6 of a .5 tie are skipped",
 ]
-REQUIRED_CLASSES = ["read_at_times:keep", "read_at_times:delete", "read_at_times:replacement", "read_at_times:offgrid",
+REQUIRED_CLASSES = ["read_at_times:second_read_on_same_handle", "read_at_times:keep", "read_at_times:delete", "read_at_times:replacement", "read_at_times:offgrid",
                     "read_at_times:rejected_beyond", "split:tg_output", "split:secondary_empty_under_interval", "generators:sine"]
 
 
@@ -73,6 +73,10 @@ def run_read_at_times(case):
     af = wave.open(fn, "r")
     try:
         try:
+            if case.get("warm_up"):
+                # the same open file was already read from (the reader owns no position assumptions)
+                audio.readFramesAtTimes(af)
+                cl.add("second_read_on_same_handle")
             frames = audio.readFramesAtTimes(af, replaceFunc=rf, **kw)
         except p.errors.ArgumentError:
             if mode == "both" and ivs:
@@ -301,7 +305,7 @@ def rat_cases(draw):
     if mode in ("keep", "both") and not ivs:
         mode = "delete"
     return {"width": width, "rate": rate, "samples": samples, "intervals": ivs, "mode": mode,
-            "replacement": draw(st.sampled_from([None, None, "silence", "sine"]))}
+            "replacement": draw(st.sampled_from([None, None, "silence", "sine"])), "warm_up": draw(st.booleans())}
 
 
 @st.composite
